@@ -514,8 +514,17 @@ class SymInt:
             lo, hi = 0, bhi
         else:
             lo, hi = -(1 << (w - 1)), (1 << (w - 1)) - 1
-        ta, tb = _terms(ta, tb, a, b, w)
-        return mk(ta & tb, lo, hi)
+        ta2, tb2 = _terms(ta, tb, a, b, w)
+        t = ta2 & tb2
+        if (ta is None or tb is None) and w <= 160:
+            # masking with a constant is how fields are extracted: let z3 fold it (a field of a
+            # partly concrete word often is a plain number)
+            t = z3.simplify(t)
+            if z3.is_bv_value(t):
+                v = t.as_signed_long()
+                if lo <= v <= hi:
+                    return v
+        return mk(t, lo, hi)
 
     __rand__ = __and__
 
